@@ -11,6 +11,7 @@ mod builders;
 mod paths;
 mod merkle;
 mod roundtrip;
+mod dedup;
 mod rng;
 mod t_time_locks;
 mod t_tree_hash;
@@ -84,6 +85,7 @@ fn main() {
                     "merkle_ground" => merkle::replay_merkle(&v["input"]),
                     "roundtrip_ground" => roundtrip::replay_roundtrip(&v["input"]),
                     "curry_ground" => t_tree_hash::replay_curry(&v["input"]),
+                    "dedup_ground" => dedup::replay_dedup(&v["input"]),
                     "bls_cache_ground" => eval::replay_bls(&v["input"]),
                     "tree_hash_precomputed" => eval::replay_precomputed(&v["input"]),
                     _ => (false, "unknown eval replay".to_string()),
